@@ -589,6 +589,26 @@ example : LoadsTo exW true intOrStr (.str "a") (.str "a") :=
   .union (pre := [.scalar "int"]) (post := [])
     (by intro c hc; simp at hc; subst hc; exact .scalar (by intro v h; cases h)) (.scalar rfl)
 
+/-- the union theorems with their hypotheses discharged (audit A) -/
+example : ∃ c ∈ [Ty.scalar "int", Ty.scalar "str"], load exW ⟨.disable, true⟩ 1 c (.str "a") = .ok (.str "a") :=
+  union_sound exW true (exW_noneExact true) 1 (by decide) _ ["int", "str"] _ _
+    (rfl : load exW ⟨.disable, true⟩ 2 intOrStr (.str "a") = .ok (.str "a"))
+example : (load exW ⟨.disable, true⟩ 2 intOrStr (.str "a")).isOk = true :=
+  union_complete exW true (exW_noneExact true) 1 _ ["int", "str"] (.str "a")
+    (fun c hc => by
+      simp only [List.mem_cons, List.not_mem_nil, or_false] at hc
+      rcases hc with rfl | rfl <;> exact exW_settled true _ _)
+    ⟨.scalar "str", by simp, rfl⟩
+example : ∀ c ∈ [Ty.scalar "int", Ty.scalar "str"], ∃ e, load exW ⟨.disable, true⟩ 1 c (.list []) = .err e :=
+  (union_fails_iff_all_fail exW true (exW_noneExact true) 1 _ ["int", "str"] (.list [])).mp
+    ⟨_, (rfl : load exW ⟨.disable, true⟩ 2 intOrStr (.list []) = .err LErr.bare)⟩
+/-- `dump_union_by_class` with its hypotheses discharged: a `bool` in `int | str` goes to `int` -/
+example : ∃ t, specDispatch exDW ["int", "str"] [.scalar "int", .scalar "str"] (.bool true) = some t ∧
+    dump exW exDW ⟨.disable, true⟩ 1 t (.bool true) = .ok (.bool true) :=
+  (dump_union_by_class exW exDW true 1 _ ["int", "str"] (.bool true) (.bool true)
+    (by simp [ModelFree, TyAll, TyAllL, NotModel]) rfl rfl).mp
+    (rfl : dump exW exDW ⟨.disable, true⟩ 2 intOrStr (.bool true) = .ok (.bool true))
+
 /-- dumping: every iterable becomes a list for list children, a tuple otherwise -/
 example : dump exW exDW ⟨.disable, true⟩ 2 listInt (.tuple [.int 1, .int 2]) = .ok (.list [.int 1, .int 2]) := rfl
 example : dump exW exDW ⟨.disable, true⟩ 2 (.iter .set false (.scalar "int")) (.set [.int 1, .int 2]) =
